@@ -81,7 +81,7 @@ theorem writes_duplicate_key_order_dependent :
 /-! ### T4 check_genesis_sound
 
 The validators as repaired by 842d79c (contract without entry), bf6e6a8 (two entries for one address), 5b5b1ec (nil /
-negative amount), 4c4dee5 (MaxSupply). Every statement below is about `checkGenesis`, the function the driver evaluates
+negative amount), 4c4dee5 (MaxSupply), feb4686 (nil / negative fusion, pillar and swap amounts). Every statement below is about `checkGenesis`, the function the driver evaluates
 on each `gen-check` line of the stream, and about `ledgerBalance` / `ledgerSupply`, the specification of what
 `NewGenesis` stores (one balance per (address, token), the absolute value of the last amount written) — which the
 stream's ledger monitor compares with a chain really started from the accepted configuration.
@@ -94,9 +94,11 @@ the representation invariant of a Go map, not a class of inputs — no `GenesisC
 theorem check_order_fact : Gen.checkGenesisOrder =
     ["CheckFieldsExist", "CheckPlasmaInfo", "CheckSwapAccount", "CheckPillarBalance", "CheckTokenTotalSupply"] := by decide
 
-/-- the refusals of `checkAccountBalance` and `CheckTokenTotalSupply` (every `return errors.Errorf`, with the loops and
+/-- the refusals of `checkAccountBalance`, `CheckTokenTotalSupply` and of the loops of `CheckPlasmaInfo`, `CheckSwapAccount`,
+    `CheckPillarBalance` (every `return errors.Errorf`, with the loops and
     conditions it sits under, in source order — read from the AST of the tree) are the ones `Model.checkAccountBalance`
-    (`blockOK`, then `!found`) and `Model.checkTokenTotalSupply` (`scanBlocks`, `tokenOK`, declared) were written for -/
+    (`blockOK`, then `!found`), `Model.checkTokenTotalSupply` (`scanBlocks`, `tokenOK`, declared), `fusionOK` and `amountOK`
+    were written for -/
 theorem validator_refusals_fact :
     Gen.gnCheckAccountBalanceRefusals =
       ["range g.GenesisBlocks.Blocks / range block.BalanceList / !ok",
@@ -109,7 +111,14 @@ theorem validator_refusals_fact :
        "range g.TokenConfig.Tokens / !ok",
        "range g.TokenConfig.Tokens / !(!ok) / token.TotalSupply.Cmp(total) != 0",
        "range g.TokenConfig.Tokens / token.MaxSupply == nil || token.TotalSupply.Cmp(token.MaxSupply) > 0",
-       "range given / !found"] := by decide
+       "range given / !found"] ∧
+    Gen.gnCheckPlasmaInfoRefusals =
+      ["range g.PlasmaConfig.Fusions / fusion == nil",
+       "range g.PlasmaConfig.Fusions / fusion.Amount == nil || fusion.Amount.Sign() < 0"] ∧
+    Gen.gnCheckSwapAccountRefusals =
+      ["range g.SwapConfig.Entries / entry.Qsr == nil || entry.Znn == nil || entry.Qsr.Sign() < 0 || entry.Znn.Sign() < 0"] ∧
+    Gen.gnCheckPillarBalanceRefusals =
+      ["range g.PillarConfig.Pillars / el.Amount == nil || el.Amount.Sign() < 0"] := by decide
 
 theorem check_supply_parts (c : Config) (h : checkGenesis c = .ok) :
     scanBlocks [] c.blocks = true ∧ (∀ t ∈ c.tokens, tokenOK c t = true) ∧
@@ -216,19 +225,51 @@ theorem check_genesis_plasma (c : Config) (h : checkGenesis c = .ok) :
   intro z hz
   exact held_not_required c _ _ h2.2 z (by simp [lookup, Ne.symm hz])
 
-/-- … and every fusion entry is present (non-nil), so `fusionSum` is the sum of the real amounts -/
-theorem check_genesis_fusions_present (c : Config) (h : checkGenesis c = .ok) : ∀ f ∈ c.fusions, f.isSome = true := by
-  have h2 := (checkGenesis_ok c h).2.1
+/-- T4i (F13f repaired, was the accepted-witness `fusion_signs_unchecked`): accepted ⇒ every fusion entry is present
+    and every fusion amount, pillar stake and swap amount is present and non-negative — so `fusionSum` / `pillarSum` are
+    sums of the real, non-negative amounts the contracts store. No hypothesis. -/
+theorem check_genesis_amounts (c : Config) (h : checkGenesis c = .ok) :
+    (∀ f ∈ c.fusions, ∃ a : Int, f = some (some a) ∧ 0 ≤ a) ∧
+    (∀ p ∈ c.pillars, ∃ a : Int, p = some a ∧ 0 ≤ a) ∧
+    (∀ e ∈ c.swaps, ∃ z q : Int, e = (some z, some q) ∧ 0 ≤ z ∧ 0 ≤ q) := by
+  obtain ⟨_, h2, h3, h4, _⟩ := checkGenesis_ok c h
   unfold checkPlasmaInfo at h2
-  rw [Bool.and_eq_true, List.all_eq_true] at h2
-  exact h2.1
+  unfold checkSwapAccount at h3
+  unfold checkPillarBalance at h4
+  rw [Bool.and_eq_true, List.all_eq_true] at h2 h3 h4
+  refine ⟨?_, ?_, ?_⟩
+  · intro f hf
+    have := h2.1 f hf
+    cases f with
+    | none => simp [fusionOK] at this
+    | some a =>
+      obtain ⟨v, hv, h0⟩ := amountOK_spec a (by simpa [fusionOK] using this)
+      exact ⟨v, by rw [hv], h0⟩
+  · intro p hp
+    exact amountOK_spec p (h4.1 p hp)
+  · intro e he
+    have := h3.1 e he
+    rw [Bool.and_eq_true] at this
+    obtain ⟨z, hz, hz0⟩ := amountOK_spec e.1 this.1
+    obtain ⟨q, hq, hq0⟩ := amountOK_spec e.2 this.2
+    exact ⟨z, q, by rw [← hz, ← hq], hz0, hq0⟩
 
-/-- what T4d does NOT say: the sign of an INDIVIDUAL fusion amount (pillar stake, swap amount) is looked at by no
-    validator — only the sum is compared with the contract's balance. Fusions of −5 and +12 with a plasma balance of 7
-    are accepted (by the real `CheckGenesis` as well); `fusionSum` is the signed sum the validator computes. -/
-theorem fusion_signs_unchecked :
+/-- F13f (was `fusion_signs_unchecked`): fusions of −5 and +12 with a plasma balance of 7 — the signed sum fits — are
+    refused by `CheckPlasmaInfo`; so are a missing fusion amount, a negative / missing pillar stake (`CheckPillarBalance`)
+    and a negative swap amount (`CheckSwapAccount`); zero amounts are fine -/
+theorem fusion_signs_checked :
     checkGenesis { blocks := [⟨Gen.PlasmaContract, [(Gen.QsrTokenStandard, some 7)]⟩],
-                   tokens := [⟨Gen.QsrTokenStandard, 7, some 100⟩], fusions := [some (-5), some 12] } = .ok := by decide
+                   tokens := [⟨Gen.QsrTokenStandard, 7, some 100⟩], fusions := [some (some (-5)), some (some 12)] } = .plasma ∧
+    checkGenesis { blocks := [⟨Gen.PlasmaContract, [(Gen.QsrTokenStandard, some 7)]⟩],
+                   tokens := [⟨Gen.QsrTokenStandard, 7, some 100⟩], fusions := [some none, some (some 7)] } = .plasma ∧
+    checkGenesis { blocks := [⟨Gen.PillarContract, [(Gen.ZnnTokenStandard, some 7)]⟩],
+                   tokens := [⟨Gen.ZnnTokenStandard, 7, some 100⟩], pillars := [some (-5), some 12] } = .pillar ∧
+    checkGenesis { blocks := [⟨Gen.PillarContract, [(Gen.ZnnTokenStandard, some 7)]⟩],
+                   tokens := [⟨Gen.ZnnTokenStandard, 7, some 100⟩], pillars := [none, some 7] } = .pillar ∧
+    checkGenesis { blocks := [⟨[0, 7], [(Gen.ZnnTokenStandard, some 9)]⟩], tokens := [⟨Gen.ZnnTokenStandard, 9, some 100⟩],
+                   swaps := [(some (-1), some 2)] } = .swap ∧
+    checkGenesis { blocks := [⟨[0, 7], [(Gen.ZnnTokenStandard, some 9)]⟩], tokens := [⟨Gen.ZnnTokenStandard, 9, some 100⟩],
+                   swaps := [(some 1, some 0)] } = .ok := by decide
 
 /-- T4e `check_genesis_pillar` (was `check_genesis_pillar_partial`): accepted ⇒ the pillar contract holds exactly the
     sum of the pillar stakes in ZNN and nothing else. No hypothesis. -/
@@ -237,11 +278,12 @@ theorem check_genesis_pillar (c : Config) (h : checkGenesis c = .ok) :
       ∀ z, z ≠ Gen.ZnnTokenStandard → ledgerBalance c Gen.PillarContract z = 0 := by
   have h4 := (checkGenesis_ok c h).2.2.2.1
   unfold checkPillarBalance at h4
-  have hq := held_required c _ _ h4 Gen.ZnnTokenStandard (pillarSum c) (by simp [lookup])
-  have h0 := required_nonneg c _ _ h4 (check_supply_parts c h).1 Gen.ZnnTokenStandard (pillarSum c) (by simp [lookup])
+  rw [Bool.and_eq_true] at h4
+  have hq := held_required c _ _ h4.2 Gen.ZnnTokenStandard (pillarSum c) (by simp [lookup])
+  have h0 := required_nonneg c _ _ h4.2 (check_supply_parts c h).1 Gen.ZnnTokenStandard (pillarSum c) (by simp [lookup])
   refine ⟨by rw [hq, stored_nonneg _ h0], h0, ?_⟩
   intro z hz
-  exact held_not_required c _ _ h4 z (by simp [lookup, Ne.symm hz])
+  exact held_not_required c _ _ h4.2 z (by simp [lookup, Ne.symm hz])
 
 /-- T4f (swap): accepted ⇒ the swap contract holds nothing, of any token. No hypothesis. -/
 theorem check_genesis_swap (c : Config) (h : checkGenesis c = .ok) : ∀ z, ledgerBalance c Gen.SwapContract z = 0 := by
@@ -259,7 +301,8 @@ theorem check_genesis_swap (c : Config) (h : checkGenesis c = .ok) : ∀ z, ledg
     yields a ledger in which, for every declared token, the balances add up to TotalSupply with
     0 ≤ TotalSupply ≤ MaxSupply; every token held is declared; no balance is negative; the plasma contract holds exactly
     Σ fusions of QSR, the pillar contract exactly Σ pillar stakes of ZNN, neither anything else, the swap contract
-    nothing. -/
+    nothing; every fusion, pillar and swap amount is present and non-negative (so the sums are sums of what the
+    contracts really store). -/
 theorem check_genesis_sound (c : Config) (hwf : c.WF) (h : checkGenesis c = .ok) :
     (∀ t ∈ c.tokens, ledgerSupply c t.zts = t.total ∧ 0 ≤ t.total ∧ ∃ m : Int, t.max = some m ∧ t.total ≤ m) ∧
     (∀ b ∈ c.blocks, ∀ e ∈ b.bal, ∃ t ∈ c.tokens, t.zts = e.1) ∧
@@ -268,10 +311,12 @@ theorem check_genesis_sound (c : Config) (hwf : c.WF) (h : checkGenesis c = .ok)
       ∀ z, z ≠ Gen.QsrTokenStandard → ledgerBalance c Gen.PlasmaContract z = 0) ∧
     (ledgerBalance c Gen.PillarContract Gen.ZnnTokenStandard = pillarSum c ∧
       ∀ z, z ≠ Gen.ZnnTokenStandard → ledgerBalance c Gen.PillarContract z = 0) ∧
-    (∀ z, ledgerBalance c Gen.SwapContract z = 0) :=
+    (∀ z, ledgerBalance c Gen.SwapContract z = 0) ∧
+    ((∀ f ∈ c.fusions, ∃ a : Int, f = some (some a) ∧ 0 ≤ a) ∧ (∀ p ∈ c.pillars, ∃ a : Int, p = some a ∧ 0 ≤ a) ∧
+      (∀ e ∈ c.swaps, ∃ z q : Int, e = (some z, some q) ∧ 0 ≤ z ∧ 0 ≤ q)) :=
   ⟨check_genesis_supply c hwf h, check_genesis_declared c h, (check_genesis_ledger c h).2.2,
    ⟨(check_genesis_plasma c h).1, (check_genesis_plasma c h).2.2⟩,
-   ⟨(check_genesis_pillar c h).1, (check_genesis_pillar c h).2.2⟩, check_genesis_swap c h⟩
+   ⟨(check_genesis_pillar c h).1, (check_genesis_pillar c h).2.2⟩, check_genesis_swap c h, check_genesis_amounts c h⟩
 
 /-- the clause of the property as it is worded ("a configuration whose balances do not add up to the declared token
     supplies and contract holdings is rejected"): contrapositive of `check_genesis_sound` -/
@@ -281,9 +326,14 @@ theorem inconsistent_rejected (c : Config) (hwf : c.WF)
       ledgerBalance c Gen.PillarContract Gen.ZnnTokenStandard ≠ pillarSum c ∨
       (∃ z, ledgerBalance c Gen.SwapContract z ≠ 0) ∨
       (∃ b ∈ c.blocks, ∃ e ∈ b.bal, e.2 = none ∨ ∃ a : Int, e.2 = some a ∧ a < 0) ∨
-      ¬ (c.blocks.map (·.addr)).Nodup) : checkGenesis c ≠ .ok := by
+      ¬ (c.blocks.map (·.addr)).Nodup ∨
+      (∃ f ∈ c.fusions, f = none ∨ f = some none ∨ ∃ a : Int, f = some (some a) ∧ a < 0) ∨
+      (∃ p ∈ c.pillars, p = none ∨ ∃ a : Int, p = some a ∧ a < 0) ∨
+      (∃ e ∈ c.swaps, e.1 = none ∨ e.2 = none ∨ (∃ a : Int, e.1 = some a ∧ a < 0) ∨ ∃ a : Int, e.2 = some a ∧ a < 0)) :
+    checkGenesis c ≠ .ok := by
   intro h
-  rcases hbad with ⟨t, ht, hb⟩ | hb | hb | ⟨z, hz⟩ | ⟨b, hb, e, he, hbad⟩ | hb
+  rcases hbad with ⟨t, ht, hb⟩ | hb | hb | ⟨z, hz⟩ | ⟨b, hb, e, he, hbad⟩ | hb | ⟨f, hf, hbad⟩ | ⟨p, hp, hbad⟩ |
+    ⟨e, he, hbad⟩
   · obtain ⟨h1, _, m, hm, hle⟩ := check_genesis_supply c hwf h t ht
     rcases hb with hb | hb | ⟨m', hm', hlt⟩
     · exact hb h1
@@ -297,6 +347,24 @@ theorem inconsistent_rejected (c : Config) (hwf : c.WF)
     · rw [ha] at hn; cases hn
     · rw [ha] at ha'; cases ha'; omega
   · exact hb (check_genesis_entries_wellformed c h).1
+  · obtain ⟨a, ha, h0⟩ := (check_genesis_amounts c h).1 f hf
+    subst ha
+    rcases hbad with hn | hn | ⟨a', ha', hneg⟩
+    · cases hn
+    · cases hn
+    · cases ha'; omega
+  · obtain ⟨a, ha, h0⟩ := (check_genesis_amounts c h).2.1 p hp
+    subst ha
+    rcases hbad with hn | ⟨a', ha', hneg⟩
+    · cases hn
+    · cases ha'; omega
+  · obtain ⟨z, q, heq, hz0, hq0⟩ := (check_genesis_amounts c h).2.2 e he
+    subst heq
+    rcases hbad with hn | hn | ⟨a', ha', hneg⟩ | ⟨a', ha', hneg⟩
+    · cases hn
+    · cases hn
+    · cases ha'; omega
+    · cases ha'; omega
 
 /-! #### the former negative witnesses: the same concrete configurations are now refused -/
 
@@ -319,12 +387,12 @@ theorem supply_duplicate_entry_rejected :
     `CheckPlasmaInfo` -/
 theorem plasma_no_entry_rejected :
     checkGenesis { blocks := [⟨[0, 7], [(Gen.QsrTokenStandard, some 9)]⟩], tokens := [⟨Gen.QsrTokenStandard, 9, some 100⟩],
-                   fusions := [some 5] } = .plasma := by decide
+                   fusions := [some (some 5)] } = .plasma := by decide
 
 /-- F13a (was `pillar_no_entry_accepted`): a pillar stake of 15000, no pillar-contract entry — refused by `CheckPillarBalance` -/
 theorem pillar_no_entry_rejected :
     checkGenesis { blocks := [⟨[0, 7], [(Gen.ZnnTokenStandard, some 9)]⟩], tokens := [⟨Gen.ZnnTokenStandard, 9, some 100⟩],
-                   pillars := [15000] } = .pillar := by decide
+                   pillars := [some 15000] } = .pillar := by decide
 
 /-- … while a contract without entry is still fine when nothing is required of it (no fusions, no pillars, swap) -/
 theorem no_entry_nothing_required_accepted :
@@ -342,7 +410,7 @@ theorem max_supply_checked :
 /-- order of the validators when several refuse: an unbacked plasma contract AND a supply above its maximum is the plasma
     refusal (the earlier validator) -/
 example : checkGenesis { blocks := [⟨[0, 7], [(Gen.QsrTokenStandard, some 9)]⟩], tokens := [⟨Gen.QsrTokenStandard, 9, some 8⟩],
-                         fusions := [some 5] } = .plasma := by decide
+                         fusions := [some (some 5)] } = .plasma := by decide
 
 /-- consequence used by the stream: changing one declared supply of an accepted configuration (everything else
     equal) is rejected -/
@@ -360,7 +428,7 @@ example : checkGenesis { blocks := [⟨Gen.PillarContract, [(Gen.ZnnTokenStandar
                                     ⟨Gen.PlasmaContract, [(Gen.QsrTokenStandard, some 7)]⟩,
                                     ⟨[0, 7], [(Gen.ZnnTokenStandard, some 5), (Gen.QsrTokenStandard, some 3)]⟩],
                          tokens := [⟨Gen.ZnnTokenStandard, 20, some 100⟩, ⟨Gen.QsrTokenStandard, 10, some 100⟩],
-                         pillars := [15], fusions := [some 3, some 4], swaps := [(some 1, some 2)] } = .ok := by decide
+                         pillars := [some 15], fusions := [some (some 3), some (some 4)], swaps := [(some 1, some 2)] } = .ok := by decide
 
 /-! ### T5 startup_compare -/
 
